@@ -654,7 +654,11 @@ class DAGRunConcurrentManager(DAGRunManagerLike):
         try:
             self._add_case_result(node_id)
         except KeyError as ex:
-            error = SwitchDoesNotHaveCaseError(node_id, ex.args[0])
+            label = ex.args[0]
+
+            # The switch node could have failed inside a OneOf subgraph, where an error is kept as the node's result.
+            # The switch fails with that error, an exception is not a label.
+            error = label if isinstance(label, BaseException) else SwitchDoesNotHaveCaseError(node_id, label)
 
             if dag.is_oneof:
                 # Inside a OneOf subgraph an error is kept as the node's result, so that only the candidate fails
